@@ -1,4 +1,4 @@
-import Holpy.C11.Proofs
+import Holpy.C11.Poly
 /-
 C11 — an item accepted as a definition cannot make a consistent theory inconsistent.
 
@@ -45,6 +45,19 @@ theorem viewOK_parts {name : String} {T : Ty} {v : View} (h : viewOK name T v = 
     rw [hS, beq_iff_eq.1 h7]
   · cases h7
 
+/-- the part of `viewOK` the semantic argument uses (stable under type instantiation) -/
+def CoreOK (name : String) (T : Ty) (v : View) : Prop :=
+  T = arrows (v.args.map (·.2)) v.B ∧ rhsVarsOK v = true ∧ (2, name, T) ∉ atoms v.rhs ∧
+    Term.checkedGetType [] v.rhs = .ok v.B
+
+theorem coreOK_of_viewOK {name : String} {T : Ty} {v : View} (h : viewOK name T v = true) :
+    CoreOK name T v := by
+  obtain ⟨hT, _, hvars, hself, htyped⟩ := viewOK_parts h
+  refine ⟨hT, hvars, ?_, htyped⟩
+  intro hm
+  have := List.all_eq_true.1 hself _ hm
+  simp [apart_irrefl] at this
+
 theorem lhs_typed (name : String) (T : Ty) (v : View) (hT : T = arrows (v.args.map (·.2)) v.B) :
     Term.checkedGetType [] (mkLhs name T v.args) = .ok v.B :=
   checked_applyArgs v.args v.B (.const name T) (by simp [Term.checkedGetType, hT])
@@ -60,12 +73,12 @@ theorem update_const_other (ρ : Valuation) (name : String) (T : Ty) (c k : Nat)
 
 /-- core: if a valuation gives the new constant the value `defValue` and agrees with `ρ` on the
 constants of the right-hand side, the equation holds under it -/
-theorem defValue_holds (name : String) (T : Ty) (v : View) (hv : viewOK name T v = true)
+theorem defValue_holds (name : String) (T : Ty) (v : View) (hv : CoreOK name T v)
     (hfresh : freshName name T = true) (M : Model) (ρ : Valuation) (hρ : Admissible M ρ)
     (ρ2 : Valuation) (hρ2 : Admissible M ρ2) (hcval : ρ2 2 name T = defValue M ρ v)
     (hold : ∀ a ∈ atoms v.rhs, a.1 = 2 → ρ2 2 a.2.1 a.2.2 = ρ 2 a.2.1 a.2.2) :
     holds M ρ2 (mkProp name T v) := by
-  obtain ⟨hT, _, hvars, _, htyped⟩ := viewOK_parts hv
+  obtain ⟨hT, hvars, _, htyped⟩ := hv
   have hF : ∀ vs, EnvOK M (v.args.map (·.2)) vs →
       sem M (argVal ρ v.args vs) [] [] v.rhs < M.size v.B :=
     fun vs hvs => sem_lt M _ (argVal_admissible hρ v.args vs hvs) [] [] (EnvOK.nil M) v.rhs v.B htyped
@@ -104,23 +117,15 @@ theorem defValue_holds (name : String) (T : Ty) (v : View) (hv : viewOK name T v
     show argVal ρ v.args _ 1 n S = ρ2 1 n S
     exact argVal_mem ρ ρ2 v.args n S hmem
 
-theorem defValue_lt (name : String) (T : Ty) (v : View) (hv : viewOK name T v = true)
+theorem defValue_lt (name : String) (T : Ty) (v : View) (hv : CoreOK name T v)
     (M : Model) (ρ : Valuation) (hρ : Admissible M ρ) : defValue M ρ v < M.size T := by
-  obtain ⟨hT, _, _, _, htyped⟩ := viewOK_parts hv
+  obtain ⟨hT, _, _, htyped⟩ := hv
   rw [hT]
   exact defCode_lt M _ _ _ (fun vs hvs =>
     sem_lt M _ (argVal_admissible hρ v.args vs hvs) [] [] (EnvOK.nil M) v.rhs v.B htyped)
 
-/-- the constant being defined does not occur on its right-hand side -/
-theorem self_not_in_rhs {name : String} {T : Ty} {v : View} (hv : viewOK name T v = true) :
-    (2, name, T) ∉ atoms v.rhs := by
-  obtain ⟨_, _, _, hself, _⟩ := viewOK_parts hv
-  intro hm
-  have := List.all_eq_true.1 hself _ hm
-  simp [apart_irrefl] at this
-
 /-- with the constant interpreted by `defValue`, the equation holds for all variables -/
-theorem defValue_sat (name : String) (T : Ty) (v : View) (hv : viewOK name T v = true)
+theorem defValue_sat (name : String) (T : Ty) (v : View) (hv : CoreOK name T v)
     (hfresh : freshName name T = true) (M : Model) (ρ : Valuation) (hρ : Admissible M ρ) :
     defValue M ρ v < M.size T ∧
       Sat M (ρ.update 2 name T (defValue M ρ v)) ⟨[], mkProp name T v⟩ := by
@@ -131,7 +136,7 @@ theorem defValue_sat (name : String) (T : Ty) (v : View) (hv : viewOK name T v =
   · intro a ha hk
     rw [hagree, update_const_other]
     rintro ⟨_, hn, hS⟩
-    apply self_not_in_rhs hv
+    apply hv.2.2.1
     obtain ⟨k, n, S⟩ := a
     cases hk
     cases hn
@@ -152,7 +157,7 @@ theorem def_conservative (name : String) (T : Ty) (prop : Term) (h : defOK name 
     rw [hv] at h
     rw [view?_spec name T prop v hv]
     intro M ρ hρ
-    exact ⟨defValue M ρ v, defValue_sat name T v h hfresh M ρ hρ⟩
+    exact ⟨defValue M ρ v, defValue_sat name T v (coreOK_of_viewOK h) hfresh M ρ hρ⟩
 
 example : defOK "K" (Ty.fn (.tvar "a") (Ty.fn (.tvar "b") (.tvar "a")))
     (.comb (.comb (.const "equals" (Ty.fn (.tvar "a") (Ty.fn (.tvar "a") Ty.bool)))
@@ -211,7 +216,7 @@ is determined by its type (which is what "type variables of the right-hand side 
 of the constant" gives) and no right-hand side mentions the constant at any of the types being
 defined (which is what `is_apart` gives).  Only the values at `(name, Ts i)` change. -/
 theorem def_conservative_family {ι : Type} (name : String) (Ts : ι → Ty) (vs : ι → View)
-    (hok : ∀ i, viewOK name (Ts i) (vs i) = true) (hfresh : ∀ i, freshName name (Ts i) = true)
+    (hok : ∀ i, CoreOK name (Ts i) (vs i)) (hfresh : ∀ i, freshName name (Ts i) = true)
     (hcoh : ∀ i j, Ts i = Ts j → vs i = vs j)
     (hcross : ∀ i j, (2, name, Ts j) ∉ atoms (vs i).rhs)
     (M : Model) (ρ : Valuation) (hρ : Admissible M ρ) :
@@ -250,6 +255,102 @@ theorem def_conservative_family {ι : Type} (name : String) (Ts : ι → Ty) (vs
       apply hneg
       rintro ⟨_, rfl, j, rfl⟩
       exact hcross i j ha
+
+/-- the name of the new constant is none of `equals`, `implies`, `all` -/
+def nonLogicalName (name : String) : Bool := name != "equals" && name != "implies" && name != "all"
+
+theorem freshName_of_nonLogical (name : String) (h : nonLogicalName name = true) (T : Ty) :
+    freshName name T = true := by
+  simp only [nonLogicalName, Bool.and_eq_true, bne_iff_ne, ne_eq] at h
+  unfold freshName logicalKind
+  split <;> simp_all
+
+theorem coreOK_inst (σ : String → Ty) {name : String} {T : Ty} {v : View} (h : CoreOK name T v)
+    (hself : noSelfOcc name T v = true) : CoreOK name (instTy σ T) (instView σ v) := by
+  obtain ⟨hT, hvars, _, htyped⟩ := h
+  refine ⟨?_, ?_, ?_, ?_⟩
+  · rw [hT, instTy_arrows]
+    simp [instView, List.map_map, Function.comp_def]
+  · unfold rhsVarsOK at hvars ⊢
+    simp only [instView, atoms_inst, List.all_map]
+    apply List.all_eq_true.2
+    intro a ha
+    have := List.all_eq_true.1 hvars a ha
+    simp only [Bool.or_eq_true, Bool.and_eq_true, beq_iff_eq, List.contains_eq_mem,
+      decide_eq_true_eq, Function.comp_apply] at this ⊢
+    rcases this with h2 | ⟨h1, hm⟩
+    · exact Or.inl h2
+    · exact Or.inr ⟨h1, List.mem_map.2 ⟨(a.2.1, a.2.2), hm, rfl⟩⟩
+  · simp only [instView, atoms_inst, List.mem_map, not_exists, not_and]
+    intro a ha heq
+    obtain ⟨k, n, S⟩ := a
+    simp only [Prod.mk.injEq] at heq
+    obtain ⟨rfl, rfl, hS⟩ := heq
+    have := List.all_eq_true.1 hself _ ha
+    simp only [beq_self_eq_true, Bool.and_self, Bool.not_true, Bool.false_or] at this
+    exact apart_inst σ σ S T this hS
+  · have := checkedGetType_inst σ [] v.rhs v.B htyped
+    simpa [instView] using this
+
+/-- POLYMORPHIC conservativity. A definition is used at every type instance (`'a := σ 'a`) of its
+equation. For an accepted definition there is ONE interpretation of the new constant at all the
+instances `T[σ]` of its type — nothing else changes — under which EVERY instance of the equation
+holds for all values of all variables. This is where "type variables of the right-hand side occur
+in the type of the constant" (the instance of the equation is determined by the instance of the
+type) and "`is_apart`" (no instance of the right-hand side mentions an instance of the constant
+being defined) are needed. -/
+theorem def_conservative_poly (name : String) (T : Ty) (prop : Term) (h : defOK name T prop = true)
+    (hname : nonLogicalName name = true) (M : Model) (ρ : Valuation) (hρ : Admissible M ρ) :
+    ∃ ρ', Admissible M ρ' ∧
+      (∀ k n S, ¬ (k = 2 ∧ n = name ∧ ∃ σ, S = instTy σ T) → ρ' k n S = ρ k n S) ∧
+      ∀ σ, Sat M ρ' ⟨[], instTerm σ prop⟩ := by
+  unfold defOK at h
+  cases hv : view? name T prop with
+  | none => rw [hv] at h; cases h
+  | some v =>
+    rw [hv] at h
+    rw [view?_spec name T prop v hv]
+    have hcore := coreOK_of_viewOK h
+    obtain ⟨hT, _, _, hself, _⟩ := viewOK_parts h
+    have htv : rhsTvarsOK T v = true := by
+      simp only [viewOK, Bool.and_eq_true] at h
+      exact h.1.1.2
+    have := def_conservative_family (ι := String → Ty) name (fun σ => instTy σ T) (fun σ => instView σ v)
+      (fun σ => coreOK_inst σ hcore hself) (fun σ => freshName_of_nonLogical name hname _)
+      (by
+        intro σ σ' heq
+        have hag := agree_of_instTy_eq σ σ' T heq
+        have hagA : ∀ A ∈ v.args.map (·.2), ∀ x ∈ A.tvars, σ x = σ' x := by
+          intro A hA x hx
+          exact hag x (by rw [hT]; exact (tvars_arrows _ _ x).2 (Or.inl ⟨A, hA, hx⟩))
+        have hagB : ∀ x ∈ v.B.tvars, σ x = σ' x := by
+          intro x hx
+          exact hag x (by rw [hT]; exact (tvars_arrows _ _ x).2 (Or.inr hx))
+        have hagR : ∀ S ∈ termTypes v.rhs, ∀ x ∈ S.tvars, σ x = σ' x := by
+          intro S hS x hx
+          have h1 := List.all_eq_true.1 htv S hS
+          have h2 := List.all_eq_true.1 h1 x hx
+          exact hag x (by simpa using h2)
+        simp only [instView, View.mk.injEq]
+        refine ⟨?_, instTy_congr σ σ' v.B hagB, instTerm_congr σ σ' v.rhs hagR⟩
+        apply List.map_congr_left
+        intro p hp
+        rw [instTy_congr σ σ' p.2 (hagA p.2 (List.mem_map.2 ⟨p, hp, rfl⟩))])
+      (by
+        intro σ τ hm
+        simp only [instView, atoms_inst, List.mem_map] at hm
+        obtain ⟨a, ha, heq⟩ := hm
+        obtain ⟨k, n, S⟩ := a
+        simp only [Prod.mk.injEq] at heq
+        obtain ⟨rfl, rfl, hS⟩ := heq
+        have := List.all_eq_true.1 hself _ ha
+        simp only [beq_self_eq_true, Bool.and_self, Bool.not_true, Bool.false_or] at this
+        exact apart_inst σ τ S T this hS)
+      M ρ hρ
+    obtain ⟨ρ', h1, h2, h3⟩ := this
+    refine ⟨ρ', h1, h2, fun σ => ?_⟩
+    rw [instTerm_mkProp]
+    exact h3 σ
 
 /-! ### the equation of an accepted definition is well-typed -/
 
@@ -301,6 +402,18 @@ example : Conservative "zero" (.con "int" []) zeroIntProp := def_conservative _ 
 example : ∃ th, Ext.theorem "comp_def" th ∈ getExtension "comp" "comp" compT compProp ["hint_rewrite"] ∧
     Thm.checkThmType th = true ∧ Ext.constant "comp" compT "comp" ∈ getExtension "comp" "comp" compT compProp ["hint_rewrite"] :=
   def_ext_welltyped "comp" "comp" compT compProp ["hint_rewrite"] (by decide)
+
+/-- `comp` at all its type instances at once -/
+example (M : Model) (ρ : Valuation) (hρ : Admissible M ρ) : ∃ ρ', Admissible M ρ' ∧
+    (∀ k n S, ¬ (k = 2 ∧ n = "comp" ∧ ∃ σ, S = instTy σ compT) → ρ' k n S = ρ k n S) ∧
+    ∀ σ, Sat M ρ' ⟨[], instTerm σ compProp⟩ :=
+  def_conservative_poly "comp" compT compProp (by decide) (by decide) M ρ hρ
+
+/-- the overloaded `zero :: int` defined through `zero :: nat`: the two are different constants -/
+example (M : Model) (ρ : Valuation) (hρ : Admissible M ρ) : ∃ ρ', Admissible M ρ' ∧
+    (∀ k n S, ¬ (k = 2 ∧ n = "zero" ∧ ∃ σ, S = instTy σ (.con "int" [])) → ρ' k n S = ρ k n S) ∧
+    ∀ σ, Sat M ρ' ⟨[], instTerm σ zeroIntProp⟩ :=
+  def_conservative_poly "zero" (.con "int" []) zeroIntProp (by decide) (by decide) M ρ hρ
 
 /-! ### each side condition is needed -/
 
